@@ -27,6 +27,7 @@ type HSpec struct {
 	Solver      string            `json:"solver"`
 	Cross       []string          `json:"cross"`
 	TimeoutMs   int               `json:"timeout_ms"`
+	MaxPreempts int               `json:"max_preempts"`
 	MaxSteps    int64             `json:"max_steps"`
 	MaxFanout   int               `json:"max_fanout"`
 	MaxPaths    int64             `json:"max_paths"`
@@ -144,6 +145,7 @@ func runHarness(h HSpec, tier int, seed int64, trace bool, logDir string) *HResu
 	}
 	cfg.CrossSolvers = h.Cross
 	cfg.IntMode = h.IntMode
+	cfg.MaxPreempts = h.MaxPreempts
 	if h.TimeoutMs > 0 {
 		cfg.TimeoutMs = h.TimeoutMs
 	}
